@@ -111,7 +111,7 @@ Definition max_time_delay (rate millis : N) : N := w32 (rate * millis / 1000).
 
 (* ghost events: every change of active.head *)
 Inductive ev :=
-| EvAnchor (h : N)            (* active = filled *)
+| EvAnchor (a h : N)          (* active = filled: active.head was a, is now h = filled.head *)
 | EvMove (kind : N) (h t : N) (* active.head = consume.tail; kind 0 sample built,
                                  1 run dropped (not a partition head), 2 Unmarshal error *)
 | EvSkip (h : N).             (* active.head++ in purgeBuffers *)
@@ -255,7 +255,7 @@ Section Builder.
 
   Definition buildSample (purging : bool) (s0 : st) : st * option sample :=
     let s1 := if l_empty (active s0)
-              then log_ev (set_active s0 (filled s0)) (EvAnchor (l_head (filled s0))) else s0 in
+              then log_ev (set_active s0 (filled s0)) (EvAnchor (l_head (active s0)) (l_head (filled s0))) else s0 in
     if l_empty (active s1) then (s1, None)
     else
       let s2 := if cmp_eqb (compare (filled s1) (l_tail (active s1))) CInside
@@ -319,7 +319,7 @@ Section Builder.
 
   Definition purge_body (s0 : st) : st :=
     let s1 := if l_empty (active s0)
-              then log_ev (set_active s0 (filled s0)) (EvAnchor (l_head (filled s0))) else s0 in
+              then log_ev (set_active s0 (filled s0)) (EvAnchor (l_head (active s0)) (l_head (filled s0))) else s0 in
     if l_hasData (active s1) && (l_head (active s1) =? l_head (filled s1)) then
       let r := buildSample true s1 in
       match snd r with
